@@ -1,6 +1,7 @@
 import python_minifier.ast_compat as ast
 
 from python_minifier.rename.binding import BuiltinBinding, NameBinding
+from python_minifier.rename.mapper import binding_namespace
 from python_minifier.rename.util import builtins, get_global_namespace, get_nonlocal_namespace
 
 
@@ -55,11 +56,12 @@ def resolve_names(node):
 
     if isinstance(node, ast.Name) and isinstance(node.ctx, ast.Load):
         get_binding(node.id, node.namespace).add_reference(node)
-    elif isinstance(node, ast.Name) and node.id in node.namespace.nonlocal_names:
-        binding = get_binding(node.id, node.namespace)
+    elif isinstance(node, ast.Name) and node.id in binding_namespace(node).nonlocal_names:
+        namespace = binding_namespace(node)
+        binding = get_binding(node.id, namespace)
         binding.add_reference(node)
 
-        if isinstance(node.ctx, ast.Store) and isinstance(node.namespace, ast.ClassDef):
+        if isinstance(node.ctx, ast.Store) and isinstance(namespace, ast.ClassDef):
             binding.disallow_rename()
 
     elif isinstance(node, ast.ClassDef) and node.name in node.namespace.nonlocal_names:
